@@ -223,8 +223,8 @@ def assemble_fn(unit, spec, idx, raw, counts):
     text = apply_edits(raw, (f["start"], f["end"]), edits)
     # R1: accessors
     if "R1" in unit.rules:
-        text, n1 = re.subn(r"self\s*\.\s*toks_mut\(\)", "self.toks", text)
-        text, n2 = re.subn(r"self\s*\.\s*toks\(\)", "self.toks", text)
+        text, n1 = re.subn(r"\b(self|parser)\s*\.\s*toks_mut\(\)", r"\1.toks", text)
+        text, n2 = re.subn(r"\b(self|parser)\s*\.\s*toks\(\)", r"\1.toks", text)
         counts["R1"] = counts.get("R1", 0) + n1 + n2
     # proof hints (ghost code) spliced in front of a uniquely identified source fragment
     for ph in spec.get("proof", []):
@@ -285,6 +285,7 @@ def build_unit(unit, scratch, outdir):
     parts.append("\n// ---- vacuity probe: MUST FAIL ----\nproof fn vacuity_probe()\n    ensures false,\n{}\n")
     if unit.extra:
         parts.append("\n// ---- unit-level spec functions and lemmas ----\n" + unit.extra + "\n")
+    import_container = unit.d.get("import_container")
     parts.append("\n// ---- functions extracted by span from %s ----\n%s {\n" % (unit.source, unit.container))
     fn_meta = []
     probes_all = []
@@ -296,7 +297,16 @@ def build_unit(unit, scratch, outdir):
         probes_all += probes
     cur = "".join(parts)
     line = cur.count("\n") + 1
+    if import_container:
+        # own functions first, then close the block and open the import block
+        own = [b for b in body_parts if not b[0].get("imported_from")]
+        imp = [b for b in body_parts if b[0].get("imported_from")]
+        body_parts = own + [("SWITCH", None, "}\n\n// ---- imported contracts (external_body) ----\n%s {\n" % import_container, None)] + imp
     for spec, f, text, raw in body_parts:
+        if spec == "SWITCH":
+            cur += text
+            line += text.count("\n")
+            continue
         n = text.count("\n")
         fn_meta.append(
             {
